@@ -498,8 +498,14 @@ void RealVisitor::check_power(const RCP<const Basic> &base,
     base->accept(*this);
     if (is_true(is_real_)) {
         if (is_true(is_integer(*exp, assumptions_))) {
-            // base is real and exp is integer => true
-            is_real_ = tribool::tritrue;
+            // base is real and exp is integer => true, unless it can be
+            // 0**(negative integer), which is an infinity
+            if (is_true(is_nonnegative(*exp, assumptions_))
+                or is_true(is_nonzero(*base, assumptions_))) {
+                is_real_ = tribool::tritrue;
+            } else {
+                is_real_ = tribool::indeterminate;
+            }
         } else if (is_true(is_nonnegative(*base, assumptions_))) {
             // base >= 0 and exp is real => true
             exp->accept(*this);
